@@ -330,12 +330,47 @@ def run_emu(case):
     nz = case.get("noise") or {}
     stochastic = ("temperature" in nz) or bool(nz.get("amp_sigma")) or bool(nz.get("state_prep_error"))
     info["v2_stochastic"] = stochastic
+    dissipative = any(k in nz for k in ("dephasing_rate", "hyperfine_dephasing_rate", "relaxation_rate",
+                                        "depolarizing_rate", "eff_noise_rates"))
+    info["v2_dissipative"] = dissipative
     for qs in V["states"]:
         # the stochastic branch averages |psi><psi| of unnormalised solver
-        # outputs: its trace carries the norm drift of the kets
-        physical(qs._state, "v2", bad, trace_tol=2 * TOL_NORM if stochastic else TOL_TRACE)
+        # outputs: its trace carries the norm drift of the kets (with a
+        # dissipative channel every run is a master-equation run of unit trace)
+        physical(qs._state, "v2", bad,
+                 trace_tol=2 * TOL_NORM if (stochastic and not dissipative) else TOL_TRACE)
         if any(v.signature.startswith("v2:") for v in viols):
             break
+    if stochastic:
+        # the state V2 reports must be the reps-weighted average of the states
+        # of the noisy runs: recompute it with the legacy machinery from the
+        # same seed (same draws, same solver calls: agreement to rounding)
+        try:
+            from pulser_simulation import QutipEmulator, SimConfig
+
+            ref = QutipEmulator.from_sequence(seq, sampling_rate=case.get("rate", 1.0),
+                                              config=SimConfig.from_noise_model(I.noise_model_of(case)))
+            ref.set_evaluation_times(np.array(V["times"]))
+            I.seeded(case.get("seed", 0))
+            acc: dict = {}
+            tot = 0
+            reps_seen = []
+            for res_i, reps in ref._noisy_runs(progress_bar=False):
+                tot += reps
+                reps_seen.append(int(reps))
+                for r in res_i:
+                    acc[r.evaluation_time] = acc.get(r.evaluation_time, 0) + reps * I.qobj_dm(r.state)
+            info["stoch_reps"] = reps_seen
+            worst_avg = 0.0
+            for lab, qs in zip(V["labels"], V["states"]):
+                if lab in acc:
+                    worst_avg = max(worst_avg, float(np.abs(acc[lab] / tot - I.qobj_dm(qs._state)).max()))
+            info["v2_stoch_avg_diff"] = worst_avg
+            if worst_avg > 1e-9:
+                bad("v2-stochastic-average",
+                    f"V2's state differs by {worst_avg:.3g} from the reps-weighted average of the noisy runs (reps {reps_seen})")
+        except Exception as e:  # noqa: BLE001
+            info["stoch_ref_error"] = f"{type(e).__name__}: {e}"[:200]
     # V2 state conventions (bitstring_probabilities / sample) on the final state
     vs_final = V["states"][-1]
     try:
